@@ -465,6 +465,9 @@ size_t varintAdaptiveDecode(const uint8_t *src, uint64_t *values,
     case VARINT_ADAPTIVE_PFOR: {
         varintPFORMeta pforMeta = {0};
         varintPFORReadMeta(data, &pforMeta);
+        if (pforMeta.count > maxCount) {
+            break; /* output too small: report failure, write nothing */
+        }
         decoded = varintPFORDecode(data, values, &pforMeta);
 
         if (meta) {
